@@ -346,7 +346,7 @@ func runC19Case(c *fw.Ctx, id string, cs c19Case) {
 		case "dial", "zk", "meta-lookup", "frame":
 			f := "close:activity-after-close:" + e.Kind
 			c.Violate(id, f, fmt.Sprintf("%s event (%s %s %s) %v after every call had returned: %s", e.Kind, e.Server, e.Method, e.Info,
-				(e.T - (tBack.Sub(tClose) + cl.Log.Now() - cl.Log.Now())).Round(time.Millisecond), cs), cs.String())
+				(e.T-(tBack.Sub(tClose)+cl.Log.Now()-cl.Log.Now())).Round(time.Millisecond), cs), cs.String())
 		}
 	}
 	dl.mu.Lock()
